@@ -5,9 +5,9 @@ This module creates the mocks/ directory structure with mock implementations
 for both tag-based endpoint clients and the main API client.
 """
 
+import re
 import tempfile
 import traceback
-from collections import defaultdict
 from pathlib import Path
 
 from pyopenapi_gen import IROperation, IRSpec
@@ -16,6 +16,16 @@ from pyopenapi_gen.core.utils import NameSanitizer
 
 from ..visit.client_visitor import ClientVisitor
 from ..visit.endpoint.endpoint_visitor import EndpointVisitor
+
+
+def _tag_score(tag: str) -> tuple[bool, int, int, str]:
+    """Score the spellings of a tag the way EndpointsEmitter and ClientVisitor do: the best one names the tag client."""
+    is_pascal = bool(re.search(r"[a-z][A-Z]", tag)) or bool(re.search(r"[A-Z]{2,}", tag))
+    words = re.findall(r"[A-Z]?[a-z]+|[A-Z]+(?![a-z])|[0-9]+", tag)
+    words += re.split(r"[_-]+", tag)
+    word_count = len([w for w in words if w])
+    upper = sum(1 for c in tag if c.isupper())
+    return (is_pascal, word_count, upper, tag)
 
 
 class MocksEmitter:
@@ -55,11 +65,10 @@ class MocksEmitter:
             mock_endpoints_dir = mocks_dir / "endpoints"
             mock_endpoints_dir.mkdir(parents=True, exist_ok=True)
 
-            for tag, ops_for_tag in operations_by_tag.items():
+            for canonical_tag_name, ops_for_tag in operations_by_tag:
                 if not ops_for_tag:
                     continue
 
-                canonical_tag_name = tag if tag else "default"
                 class_name = NameSanitizer.sanitize_class_name(canonical_tag_name) + "Client"
                 module_name = NameSanitizer.sanitize_module_name(canonical_tag_name)
 
@@ -110,15 +119,25 @@ class MocksEmitter:
                 f.write(traceback.format_exc())
             raise
 
-    def _group_operations_by_tag(self, spec: IRSpec) -> dict[str, list[IROperation]]:
-        """Group operations by their OpenAPI tag."""
-        operations_by_tag: dict[str, list[IROperation]] = defaultdict(list)
+    def _group_operations_by_tag(self, spec: IRSpec) -> list[tuple[str, list[IROperation]]]:
+        """Group operations by tag the way EndpointsEmitter and ClientVisitor do.
 
+        An operation belongs to the group of each of its tags (or of "default"). Spellings of one tag
+        ("Data Sources", "data_sources") share the group of their normalised key, named by the best-scoring
+        spelling. The groups come in the order of their keys, like the tag clients of APIClient.
+        """
+        ops_by_key: dict[str, list[IROperation]] = {}
+        candidates_by_key: dict[str, list[str]] = {}
         for operation in spec.operations:
-            tag = operation.tags[0] if operation.tags else "default"
-            operations_by_tag[tag].append(operation)
+            keys_of_operation: set[str] = set()
+            for tag in operation.tags or ["default"]:
+                key = NameSanitizer.normalize_tag_key(tag)
+                if key not in keys_of_operation:
+                    keys_of_operation.add(key)
+                    ops_by_key.setdefault(key, []).append(operation)
+                candidates_by_key.setdefault(key, []).append(tag)
 
-        return operations_by_tag
+        return [(max(candidates_by_key[key], key=_tag_score), ops_by_key[key]) for key in sorted(ops_by_key)]
 
     def _generate_mock_endpoints_init(self, tag_tuples: list[tuple[str, str, str]]) -> str:
         """Generate __init__.py for mocks/endpoints/ directory."""
